@@ -21,15 +21,28 @@ clause → theorem
       meta handlers (F27, F27b) .................... meta_handler_sends_guarded
   always returns: every wait of the closers descends the rank
       ............................................. close_waits_descend (+ C07.no_wait_cycle_router)
+      and the servers they (and the handlers they wait for) depend on keep serving until the closer
+      stops them (audit C §0, (a)4) ................ servers_guarded, server_guard_matches_channel,
+                                                     mp_exits_after_hm, assumptions_table_half,
+                                                     server_alive_until_stopped, servers_keep_serving,
+                                                     mp_serves_while_hm, rtr_serves_until_closed,
+                                                     server_waits_classified
+                                                     (generic: Nexus/L3/WpL3Serve; tables (i),(l),(m) of
+                                                      Nexus/L3/WpL3Tables; C07.blocked_posters_reach_running_server)
+  one closer per realm ((d)5) ...................... single_closer, single_closer_generic
   handleSession / close mutual exclusion ........... handle_session_order, peer_closed_once_by_handler
   router.Close ..................................... router_close_order
 The sequential half (GOODBYE to every client, later Attach answered, other realms unchanged) is the L2
 model's; "no goroutine left" is observed by family `shutdown` under synctest.
 -/
 import Nexus.L3.CloseModel
+import Nexus.L3.WpL3ServeModel
+import Nexus.L3.WpL3Wait
+import Nexus.L3.WpL3Mutex
 
 namespace Nexus.C06
 open Nexus.Gen.Sites Nexus.L3 Nexus.L3.Shutdown Nexus.L3.CloseModel
+open Nexus.L3.WpL3Tables Nexus.L3.WpL3.Serve Nexus.L3.WpL3.ServeModel
 
 /-- Every statement of realm.close (with dealer.close and broker.close inlined) is known to the
     translation. -/
@@ -243,13 +256,31 @@ theorem handle_session_order :
 
 /-- After a session's handler exists, its peer is closed in exactly one place: the end of that
     handler. The other `Close` calls on a peer are in AttachClient, on the paths that never start a
-    handler. -/
+    handler: `client.Close()` when no HELLO arrived, and the `client.Close()` of the `sendAbort`
+    closure, which runs in the attaching goroutine and — called inside the action posted to the router
+    goroutine — in the router goroutine (the fourth entry; table (b) completed with the closure's
+    second context, Nexus/L3/WpL3Wait.lean; audit C: C06 (b)4). -/
 theorem peer_closed_once_by_handler :
-    ((closeSites.filter fun c => !c.isChanClose &&
+    ((WpL3.allCloseSites.filter fun c => !c.isChanClose &&
         memN c.recvType [key! "*wamp.Session", key! "wamp.Peer"]).map (·.key)) =
       [key! "router.realm.handleSession|Close|sess",
        key! "router.router.AttachClient|Close|client",
-       key! "router.router.AttachClient|Close|client#2"] := by decide +kernel
+       key! "router.router.AttachClient|Close|client#2",
+       key! "router.router.AttachClient|Close|client@posted router.actionChan"] := by decide +kernel
+
+/-- … and by which goroutines: the handler, the attaching goroutine, the router goroutine. -/
+theorem peer_close_roles :
+    ∀ c ∈ WpL3.allCloseSites, c.isChanClose = false →
+      memN c.recvType [key! "*wamp.Session", key! "wamp.Peer"] = true →
+      siteRoles c.fn c.gctx c.garg = [.H] ∨ siteRoles c.fn c.gctx c.garg = [.A1] ∨
+      siteRoles c.fn c.gctx c.garg = [.Rtr] := by
+  have h : WpL3.allCloseSites.all (fun c => c.isChanClose ||
+      !memN c.recvType [key! "*wamp.Session", key! "wamp.Peer"] ||
+      (decide (siteRoles c.fn c.gctx c.garg = [.H]) || decide (siteRoles c.fn c.gctx c.garg = [.A1]) ||
+       decide (siteRoles c.fn c.gctx c.garg = [.Rtr]))) = true := by decide +kernel
+  intro c hc h1 h2
+  have := forall_of_all h c hc
+  simpa [h1, h2, or_assoc] using this
 
 /-- router.Close: once; inside the router goroutine mark closed and close every realm; then stop the
     router goroutine through `closing` (the action channel stays open for late callers), stop the
@@ -322,5 +353,217 @@ theorem close_waits_descend :
     have := forall_of_all h2 s hs
     simp only [hm, Bool.not_true, Bool.false_or] at this
     exact of_decide_eq_true (forall_of_all this e he)
+
+/-! ### Servers keep serving (audit C §0; (a)4 "always returns")
+
+`close_waits_descend` and `C07.no_wait_cycle_router` say that the closer is in no wait *cycle*. The
+closer waits for the session handlers, those block on the realm goroutine and on the meta session's
+handler, the realm goroutine on the dealer … — acyclic, but if one of those servers could leave its
+loop for a reason of its own everybody above it would wait for ever. The theorems below close that
+gap: each server leaves its loop only behind the stop signal that the closer issues *after* it has
+waited for everybody who posts to that server. -/
+
+/-- In the shutdown model as it was (any actor may exit at any moment) the wedge of audit C §0 is a
+    reachable configuration: a session handler alive and posting to the meta session's channel, that
+    channel not stopped, and nobody serving it. The guards exclude exactly this. -/
+theorem old_model_admits_wedge (prog : List I) :
+    ∃ c, Reach (sys prog) c ∧ 0 < c.alive .H ∧ posts .H .metaChan = true ∧
+      c.closed .metaChan = false ∧ c.alive (serverOf .metaChan) = 0 := by
+  let c0 : Cfg Role SChan SFlag :=
+    { pc := 0, alive := fun r => if r = .H ∨ r = .HM ∨ r = .MP then 1 else 0,
+      flag := fun _ => false, closed := fun _ => false }
+  have hinit : Init (sys prog) c0 := ⟨rfl, fun _ => rfl, fun _ => rfl, by
+    intro r q hq h0
+    cases r <;> simp [sys, exitNeeds] at hq
+    subst hq
+    revert h0
+    decide⟩
+  have hstep : Step (sys prog) c0 { c0 with alive := upd c0.alive .HM (c0.alive .HM - 1) } :=
+    Step.exit (S := sys prog) Role.HM (by decide) (by intro q hq; simp [sys, exitNeeds] at hq)
+  refine ⟨_, Reach.step (Reach.init hinit) hstep, ?_, ?_, rfl, ?_⟩
+  · decide
+  · decide +kernel
+  · decide
+
+/-- **The guards, computed from the regenerated exit table**: every way out of `dealer.run`,
+    `broker.run`, `realm.run` and of the meta session's `handleInboundMessages` is the closer's stop
+    signal for that server's channel (for the meta session: or excluded by a named assumption). -/
+theorem servers_guarded :
+    guardOf .D = some .dealerChan ∧ guardOf .B = some .brokerChan ∧
+    guardOf .R = some .realmChan ∧ guardOf .HM = some .metaChan := by decide +kernel
+
+theorem server_guard_matches_channel (ch : SChan) : servers.guard (servers.server ch) = some ch := by
+  cases ch
+  · exact servers_guarded.1
+  · exact servers_guarded.2.1
+  · exact servers_guarded.2.2.1
+  · exact servers_guarded.2.2.2
+
+/-- The meta-procedure handler: every exit of its loop follows the exit of the meta session's
+    handler — `metaSessDone` (closed only by that goroutine, never sent on) is closed, its closure `send`
+    failed (it returns false only on `metaSessDone`), or that handler's parting GOODBYE arrived. This
+    is `CloseModel.exitNeeds .MP = some .HM`, derived from table (i). -/
+theorem mp_exits_after_hm : mpExitsAfterHM = true ∧ exitNeeds .MP = some .HM := by
+  refine ⟨by decide +kernel, rfl⟩
+
+/-- The table half of each assumption holds (see Nexus/L3/WpL3ServeModel.lean for what remains). -/
+theorem assumptions_table_half : ∀ a : Assumption, neverOk a = true := by
+  intro a; cases a <;> decide +kernel
+
+/-- The assumptions the guard of the meta session's handler uses; no other guard uses any. -/
+theorem assumptions_used :
+    ((exitWhy.filterMap fun e => match e.2.2 with | .never a => some (e.2.1, a) | _ => none).eraseDups) =
+      [(.HM, .C04_meta_never_ends), (.HM, .metaNotInClients), (.HM, .metaPeerNeverClosed),
+       (.HM, .metaMessageKinds), (.MP, .metaPeerNeverClosed)] := by decide +kernel
+
+/-- Non-vacuity of the guard computation: a wrong stop signal, a wrong closer statement, or one more
+    `return` in the loop (an exit without entry) take the guard away. -/
+example : specOk { specD with signal := key! "dealer.stopped" } = false := by decide +kernel
+example : specOk { specD with stopStmt := key! "<-dealer.stopped" } = false := by decide +kernel
+example : specOk { specB with chan := some .dealerChan } = false := by decide +kernel
+example : exitOk specD ⟨key! "router.dealer.run|exit|ret|if dealer.debug {", key! "router.dealer.run", .ret, true,
+    key! "", key! "", .other, key! "", false, [key! "if dealer.debug {"]⟩ = false := by decide +kernel
+
+/-- The realm's shutdown system with servers and guards. -/
+abbrev GReachRealm (prog : List I) (c : Cfg Role SChan SFlag) : Prop := GReach (sys prog) servers c
+
+/-- **A server is alive until the closer stops it**: in every configuration reachable by guarded
+    steps, while the stop statement of a served channel has not been executed its server has a live
+    actor. -/
+theorem server_alive_until_stopped (prog : List I) {c : Cfg Role SChan SFlag}
+    (hreach : GReachRealm prog c) (ch : SChan) (hopen : c.closed ch = false) :
+    0 < c.alive (serverOf ch) :=
+  guarded_alive hreach (serverOf ch) ch (server_guard_matches_channel ch) hopen
+
+/-- **Servers keep serving.** In every reachable configuration a live actor of any role that posts
+    to a served channel (table `derived_posters`) finds that channel's server alive: nobody is left
+    hanging on `metaPeer.Send()`, `dealer.actionChan`, `broker.actionChan` or `realm.actionChan`. -/
+theorem servers_keep_serving (prog : List I) (hp : realmCloseProg = some prog)
+    {c : Cfg Role SChan SFlag} (hreach : GReachRealm prog c) (r : Role) (ch : SChan)
+    (hposts : posts r ch = true) (halive : 0 < c.alive r) : 0 < c.alive (serverOf ch) := by
+  have hq := posters_quiesced prog hp
+  have hmem : (r, ch) ∈ postPairs := by simpa [posts] using hposts
+  have hqr := List.all_eq_true.mp hq (r, ch) hmem
+  exact poster_finds_server (sys prog) servers allRoles fuel hreach r ch hqr halive hposts
+    (server_guard_matches_channel ch)
+
+/-- The meta-procedure handler is alive while the meta session's handler is, hence until the meta
+    session is stopped. -/
+theorem mp_serves_while_hm (prog : List I) {c : Cfg Role SChan SFlag} (hreach : GReachRealm prog c) :
+    (0 < c.alive .HM → 0 < c.alive .MP) ∧ (c.closed .metaChan = false → 0 < c.alive .MP) := by
+  have h1 : 0 < c.alive .HM → 0 < c.alive .MP :=
+    dependent_alive (reach_of_greach hreach) (r := .MP) (q := .HM) rfl rfl rfl
+  exact ⟨h1, fun ho => h1 (server_alive_until_stopped prog hreach .metaChan ho)⟩
+
+/-- Non-vacuity: the hypotheses hold in a non-trivial configuration — a session handler, the fixed
+    goroutines and an attach in progress, the closer three instructions into `realm.close` — and in
+    the guarded system the meta session's handler cannot leave before its stop instruction. -/
+def exCfg : Cfg Role SChan SFlag :=
+  { pc := 0, alive := fun r => if r = .H ∨ r = .HM ∨ r = .MP ∨ r = .R ∨ r = .D ∨ r = .B then 1 else 0,
+    flag := fun _ => false, closed := fun _ => false }
+
+theorem exCfg_init (prog : List I) : GInit (sys prog) servers exCfg := by
+  refine ⟨⟨rfl, fun _ => rfl, fun _ => rfl, ?_⟩, ?_⟩
+  · intro r q hq h0
+    cases r <;> simp [sys, exitNeeds] at hq
+    subst hq
+    revert h0
+    decide
+  · intro r ch hg
+    have : ∀ r, (guardOf r).isSome = true → 0 < exCfg.alive r := by
+      intro r; cases r <;> decide +kernel
+    exact this r (by simp [show guardOf r = some ch from hg])
+
+/-- Hypotheses of `server_alive_until_stopped`. -/
+example (prog : List I) : GReachRealm prog exCfg ∧ exCfg.closed .dealerChan = false :=
+  ⟨GReach.init (exCfg_init prog), rfl⟩
+
+example (prog : List I) (hp : realmCloseProg = some prog) :
+    ∃ c, GReachRealm prog c ∧ 0 < c.alive .H ∧ posts .H .metaChan = true ∧ 0 < c.alive (serverOf .metaChan) := by
+  have h0 : GReachRealm prog exCfg := GReach.init (exCfg_init prog)
+  exact ⟨exCfg, h0, by decide, by decide +kernel,
+    servers_keep_serving prog hp h0 .H .metaChan (by decide +kernel) (by decide)⟩
+
+example : ∀ prog, realmCloseProg = some prog →
+    gexec (sys prog) servers guardedPairs exCfg [.exit .HM] = none ∧
+    (gexec (sys prog) servers guardedPairs exCfg
+      (List.replicate 15 .closer ++ [.exit .H, .closer, .closer, .exit .HM])).isSome = true := by
+  have h : (match realmCloseProg with
+      | some prog => decide (gexec (sys prog) servers guardedPairs exCfg [.exit .HM] = none) &&
+          (gexec (sys prog) servers guardedPairs exCfg
+            (List.replicate 15 .closer ++ [.exit .H, .closer, .closer, .exit .HM])).isSome
+      | none => true) = true := by decide +kernel
+  intro prog hp
+  rw [hp] at h
+  simpa using h
+
+/-- The router goroutine: the only way out of `router.run` is `case <-router.closing`, a channel
+    nobody sends on and that only `router.Close` closes (inside `closeOnce.Do`, after the action that
+    closed every realm has answered, `router_close_order`); `router.stopped` is closed only by
+    `router.run` itself on that exit, and it is the alternative of every later post
+    (`post_guarded_by_stopped`): whoever posts to the router goroutine is served or released. -/
+theorem rtr_serves_until_closed :
+    specOk specRtr = true ∧ endChanOk (key! "router.stopped") = true ∧
+    (order_router_Close.idxOf (key! "<-done") < order_router_Close.idxOf (key! "close(router.closing)")) := by
+  decide +kernel
+
+/-- **Every wait for a server is accounted for.** Each channel operation that makes a goroutine wait
+    for one of the server roles HM, R, D, B, Rtr, MP is a post covered by `servers_keep_serving`, a post
+    with the server's stop signal as alternative, the closer's own post or a post during construction,
+    the wait for the answer of a posted closure (the waiter being a poster to that very channel), or the
+    wait for the server's termination on a channel that only the server's exit closes. -/
+theorem server_waits_classified :
+    ∀ o ∈ chanOps, waitsForServer o = true → (classifyServerOp o).isSome = true := by
+  have h : chanOps.all (fun o => !waitsForServer o || (classifyServerOp o).isSome) = true := by
+    decide +kernel
+  intro o ho hw
+  have := forall_of_all h o ho
+  simpa [hw] using this
+
+/-- Non-vacuity: there are such waits, of every class. -/
+example : ∀ c ∈ [EdgeClass.awaitEnd, .servedPost, .replyWait, .exemptPost, .guardedPost, .stopAlt],
+    (chanOps.any fun o => waitsForServer o && decide (classifyServerOp o = some c)) = true := by
+  decide +kernel
+
+/-- The served post edges are edges of the router's wait-for relation (C07), poster → server. -/
+theorem serve_edges_are_wait_edges : ∀ e ∈ serveEdges, e ∈ routerEdges := by
+  have h : serveEdges.all (fun e => routerEdges.contains e) = true := by decide +kernel
+  intro e he
+  simpa using forall_of_all h e he
+
+/-! ### One closer per realm (audit (d)5) -/
+
+/-- `realm.closed` is assigned in one place in the whole tree, `realm.closed = true` in `realm.close`
+    (table (k)); `realm.close` begins `Lock; defer Unlock; if closed { return }; closed = true`, releases
+    the lock nowhere but in that deferred call, and every statement that waits for a role or stops a
+    server comes after the assignment. Two goroutines in `realm.close` (Router.Close in the router
+    goroutine, RemoveRealm outside it) are serialised by the lock and the second returns at the test:
+    the shutdown system's single closer is the code's. `handleSession` tests the same flag under the
+    same lock (`handle_session_order`). The generic statement — test-and-set under a mutex lets exactly
+    one caller through, for any number of callers and every interleaving — is
+    `single_closer_generic` (Nexus/L3/WpL3Mutex.lean). -/
+theorem single_closer :
+    ((fieldAssigns.filter fun a => Nat.beq a.field (key! "realm.closed")).map fun a => (a.fn, a.rhs, a.gctx)) =
+      [(key! "router.realm.close", key! "true", GCtx.body)] ∧
+    order_realm_close.take 6 =
+      [key! "realm.closeLock.Lock()", key! "defer realm.closeLock.Unlock()", key! "if realm.closed {",
+       key! "return", key! "}", key! "realm.closed = true"] ∧
+    ((syncOps.filter fun s => Nat.beq s.fn (key! "router.realm.close") && decide (s.kind = .unlock)).length = 1) ∧
+    (∀ s ∈ (order_realm_close.drop 1).take 5, ∀ is, lookup s stmtInstr = some is → is = [.skip]) ∧
+    (key! "return") ∉ order_realm_close.drop 6 := by
+  refine ⟨by decide +kernel, by decide +kernel, by decide +kernel, ?_, by decide +kernel⟩
+  have h : ((order_realm_close.drop 1).take 5).all (fun s =>
+      match lookup s stmtInstr with | some is => decide (is = [.skip]) | none => true) = true := by
+    decide +kernel
+  intro s hs is his
+  have := forall_of_all h s hs
+  rw [his] at this
+  exact of_decide_eq_true this
+
+/-- Any number of goroutines running `Lock; if flag { return }; flag = true; …; Unlock`: at most one
+    gets past the test, and once the flag is set every later caller leaves at the test. -/
+theorem single_closer_generic {s : WpL3.Mutex.St} (h : WpL3.Mutex.Reach s) :
+    s.passed.length ≤ 1 ∧ (s.flag = true → ∀ i, s.pc i ≠ .willSet) :=
+  ⟨WpL3.Mutex.single_pass h, WpL3.Mutex.later_callers_bail h⟩
 
 end Nexus.C06
